@@ -124,7 +124,11 @@ def main():
         s0 = ComputationalBasisState(n, bits=rng.getrandbits(n))
         gl = []
         for _ in range(rng.randint(1, 6)):
-            k = rng.choice(["X", "Y", "Z", "H", "S", "RX", "CNOT"])
+            k = rng.choice(["X", "Y", "Z", "X", "Y", "Z", "Pauli", "H", "S", "RX", "CNOT"])
+            if k == "Pauli":
+                qs = rng.sample(range(n), rng.randint(1, n))
+                gl.append(gates.Pauli(qs, [rng.randint(1, 3) for _ in qs]))
+                continue
             if k == "CNOT" and n >= 2:
                 q = rng.sample(range(n), 2)
                 gl.append(gates.CNOT(*q))
@@ -132,18 +136,31 @@ def main():
                 gl.append(gates.RX(rng.randrange(n), O.rand_angle(rng)))
             elif k != "CNOT":
                 gl.append(getattr(gates, k)(rng.randrange(n)))
-        cur = s0
-        for g in gl:
-            cur = cur.with_gates_applied([g])
-        psi = O.circuit_unitary(cur.circuit.gates, n)[:, 0]
-        if isinstance(cur, ComputationalBasisState):
-            psi = vec_of(cur, n)
+        # histories: gates applied in batches of random length; the preparation circuit of intermediate states is
+        # read at random points (cached properties must not leak into derived states)
+        cur, i, batches, reads = s0, 0, [], []
+        while i < len(gl):
+            if rng.random() < 0.4:
+                _ = cur.circuit
+                reads.append(i)
+            k = rng.randint(1, len(gl) - i)
+            cur = cur.with_gates_applied(gl[i:i + k])
+            batches.append(k)
+            i += k
         ref = O.circuit_unitary(gl, n) @ vec_of(s0, n)
+        inp = {"n": n, "bits": s0.bits, "batches": batches, "circuit_read_before_gate": reads,
+               "gates": [(g.name, list(g.control_indices) + list(g.target_indices), list(g.params)) for g in gl]}
+        res.count(("chain", n, tuple(g.name for g in gl), tuple(batches), tuple(reads)), bucket="chain")
+        psi = O.circuit_unitary(cur.circuit.gates, n)[:, 0]
         d = O.phase_dist(psi.reshape(-1, 1), ref.reshape(-1, 1))
-        res.count(("chain", n, tuple(g.name for g in gl)), bucket="chain")
         if d > 1e-8:
-            res.fail("sweep:comp_basis:with_gates_applied_chain", f"derived state differs (dist {d:.2e})",
-                     {"n": n, "bits": s0.bits, "gates": [(g.name, list(g.control_indices) + list(g.target_indices), list(g.params)) for g in gl]})
+            res.fail("sweep:comp_basis:with_gates_applied_chain:circuit", f"preparation circuit of the derived state gives a "
+                     f"different vector (dist {d:.2e})", inp)
+        if isinstance(cur, ComputationalBasisState):
+            d = float(np.abs(vec_of(cur, n) - ref).max())  # exact, phase included
+            if d > 1e-8:
+                res.fail("sweep:comp_basis:with_gates_applied_chain:bits_phase", f"bits/phase of the derived basis state "
+                         f"differ from the exact vector (dist {d:.2e})", inp)
     res.emit()
 
 
